@@ -44,10 +44,10 @@ TECHNIQUE = "exhaustive enumeration of server configurations x route kinds again
 RULE = (
     "quick: all 3*2^10 combinations (storage three-valued, the rest on/off) of {max_request_bytes, max_response_bytes, max_externalized_response_bytes, "
     "storage, upload provider, max_upload_bytes, compression, sticky, echo headers, proof-required, introspection} with "
-    "authentication on, x 31 route kinds + the http_capabilities() read-back; thorough: the product of the "
+    "authentication on, plus the 2^11 on/off grid with authentication off, x 31 route kinds + the http_capabilities() read-back; thorough: the product of the "
     "multi-valued knobs (numeric knobs on/off x two joint value sets, storage {none, config-without-storage, storage}, "
     "compression {1, 3, off, zstd-disabled}, sticky {off, ttl 300, 90.5} x echo {none, empty, one, two names}) with auth on, plus "
-    "the 2^11 grid under prefix '/api' with auth off, and under prefix '/api' with CORS on and the optional pages/health "
+    "the 2^11 grid with auth off, under prefix '/api' with auth off, and under prefix '/api' with CORS on and the optional pages/health "
     "endpoint disabled; one evaluation = one response (or one read-back) judged; non-trivial = response of a distinct "
     "(route kind, status) reached with at least one optional capability configured"
 )
@@ -104,17 +104,19 @@ NUM_B = {"mrb": 100_000, "mresp": 2_000_001, "mext": 123, "mup": 10**12}
 ECHO = {"none": None, "empty": {}, "one": {"x-worker-affinity": "w1"}, "two": {"x-route-a": "1", "fly-force-instance-id": "m-17"}}
 
 
-def binary_grid() -> Any:
+def binary_grid(storage: tuple[str, ...] = ("none", "storage")) -> Any:
     names = list(KNOBS_Q)
-    for vals in itertools.product(*(KNOBS_Q[n] for n in names)):
+    for vals in itertools.product(*(KNOBS_Q[n] if n != "storage" else storage for n in names)):
         yield dict(zip(names, vals))
 
 
 def grids(ctx: Ctx) -> Any:
     """Yield (variant, knobs-dict) in a deterministic order."""
     if ctx.quick:
-        for k in binary_grid():
+        for k in binary_grid(("none", "config-only", "storage")):
             yield "auth", k
+        for k in binary_grid():
+            yield "noauth", k
         return
     # full product of the multi-valued knobs, minus combinations that only repeat an ignored sub-knob value
     sticky_echo = [(None, "none"), (None, "two")] + [(t, e) for t in (300.0, 90.5) for e in ("none", "empty", "one", "two")]
@@ -132,7 +134,7 @@ def grids(ctx: Ctx) -> Any:
                     "mrb": nums["mrb"], "mresp": nums["mresp"], "mext": nums["mext"], "storage": storage, "upload": upload,
                     "mup": nums["mup"], "comp": comp, "sticky": sticky, "echo": echo, "proof": proof, "introspect": introspect,
                 }
-    for variant in ("api-noauth", "api-bare-cors"):
+    for variant in ("noauth", "api-noauth", "api-bare-cors"):
         for k in binary_grid():
             yield variant, k
 
